@@ -116,14 +116,23 @@ def o_expand(spec):
 
 @st.composite
 def repr_cases(draw, tier):
-    n = draw(st.integers(1, 3))
-    keys = draw(st.lists(st.tuples(*[st.integers(0, 1)] * n), min_size=1, max_size=2 ** n, unique=True))
-    w = [draw(st.one_of(st.sampled_from([0.0, 1.0, 0.5, 1 / 3]), st.floats(0, 1, allow_nan=False))) for _ in keys]
-    if sum(w) <= 1e-9:
-        w[0] = 1.0
-    N = draw(st.one_of(st.sampled_from([1, 2, 3, 5, 10, 17, 100]), st.integers(1, 200)))
+    mode = draw(st.sampled_from(["random", "random", "overshoot", "undershoot"]))
+    n = draw(st.integers(1, 3)) if mode == "random" else draw(st.integers(2, 4))
+    if mode == "random":
+        keys = draw(st.lists(st.tuples(*[st.integers(0, 1)] * n), min_size=1, max_size=2 ** n, unique=True))
+        w = [draw(st.one_of(st.sampled_from([0.0, 1.0, 0.5, 1 / 3]), st.floats(0, 1, allow_nan=False))) for _ in keys]
+        if sum(w) <= 1e-9:
+            w[0] = 1.0
+        N = draw(st.one_of(st.sampled_from([1, 2, 3, 5, 10, 17, 100]), st.integers(1, 200)))
+    else:
+        # (nearly) uniform over K outcomes: every share K*p has fractional part just above / below 0.5, so
+        # rounding over- or undershoots the request by several shots and the correction path has real work
+        K = draw(st.integers(4, 2 ** n))
+        keys = draw(st.lists(st.tuples(*[st.integers(0, 1)] * n), min_size=K, max_size=K, unique=True))
+        w = [1.0 + draw(st.sampled_from([0.0, 0.0, 1e-3, -1e-3])) for _ in keys]
+        N = draw(st.integers(K // 2 + 1, K - 1)) if mode == "overshoot" else draw(st.integers(max(1, K // 4), max(1, K // 2 - 1)))
     return {"keys": [list(k) for k in keys], "w": w, "N": N, "seed": draw(st.integers(0, 2 ** 31 - 1)),
-            "str_keys": draw(st.booleans())}
+            "str_keys": draw(st.booleans()), "mode": mode}
 
 
 def o_repr(spec):
@@ -149,7 +158,9 @@ def o_repr(spec):
     for k, p in probs.items():
         require(abs(cnt.get(k, 0) - p * N) <= len(probs) + 1e-9, lambda: f"outcome {k}: {cnt.get(k, 0)} shots for share {p * N:.3f}")
     nonint = any(abs(p * N - round(p * N)) > 1e-6 for p in probs.values())
-    return {"classes": (["top_up_needed"] if nonint else ["exact"]) + (["zero_probability_outcome"] if any(v == 0 for v in probs.values()) else []),
+    rounded = sum(int(round(p * N)) for p in probs.values())
+    extra = (["eliminate>=2"] if rounded - N >= 2 else []) + (["top_up>=2"] if N - rounded >= 2 else [])
+    return {"classes": extra + (["top_up_needed"] if nonint else ["exact"]) + (["zero_probability_outcome"] if any(v == 0 for v in probs.values()) else []),
             "nontrivial": nonint}
 
 
@@ -190,4 +201,4 @@ SUBCHECKS = [
              rule="integers summing to the total, each within one of its share"),
 ]
 SUBCHECKS[0].expected_classes = ["exact_multiple", "remainder", "below_max", "empty", "ragged_last_batch"]
-SUBCHECKS[1].expected_classes = ["top_up_needed", "exact", "zero_probability_outcome"]
+SUBCHECKS[1].expected_classes = ["top_up_needed", "exact", "zero_probability_outcome", "eliminate>=2", "top_up>=2"]
